@@ -28,17 +28,24 @@ Import ListNotations.
 Local Open Scope string_scope.
 Local Open Scope nat_scope.
 
-(* ---- switches for the two confirmed defects (false = the code as it is) ---- *)
+(* ---- configuration: the two defects found by this check, both repaired in
+        /repo; [true] = the repaired code, which is the code as it is now.  The
+        compiler below is parametric in the first switch ([compile_gen fixed]) and
+        the transport in the second ([transported_env_gen]), so that theorems hold
+        for both values and the former behaviour stays available to the witnesses
+        in Witness.v. ---- *)
 
-(* compile.go:245-258: the re-shuffle tasks created over a *Result do not get
-   NumPartition / Partitioner / Combiner / CombineKey from [part]. *)
-Definition result_shuffle_fixed : bool := false.
+(* compile.go, Result reuse: the re-shuffle tasks created over a *Result take
+   NumPartition / Partitioner / Combiner / CombineKey from [part] (they did not
+   before fix f1643ee). *)
+Definition result_shuffle_fixed : bool := true.
 
-(* session.go:299-305 + bigmachine.go:208-235: compile() copies the invocation
-   (and its Env.Writable flag) into every Task before ( *Session).run freezes its
-   own copy; the executor ships task.Invocation, so workers receive Writable =
-   true and re-mark cached shards from their own view of the cache. *)
-Definition transport_freezes_env : bool := false.
+(* session.go + bigmachine.go addInvocation: compile() copies the invocation (and
+   its Env.Writable flag) into every Task before (Session).run freezes its own
+   copy, and the executor ships task.Invocation; addInvocation now freezes the
+   environment it stores for transport (it did not before fix 1222816, so workers
+   received Writable = true and re-marked cached shards from their own view). *)
+Definition transport_freezes_env : bool := true.
 
 (* ---- decimal printing (fmt %d) ---- *)
 Definition dec (n : nat) : string := NilEmpty.string_of_uint (Nat.to_uint n).
@@ -123,9 +130,11 @@ Definition mark_cached (e : cenv) (n : tname) (opIdx : nat) : cenv :=
 
 (* The environment a worker compiles with: task.Invocation.Env, i.e. the
    Writable flag as it was when compile() was entered, and the Cached map (a
-   reference, shared with the session's copy) as it is after compilation. *)
-Definition transported_env (entry exit_ : cenv) : cenv :=
-  mkEnv (if transport_freezes_env then false else ewritable entry) (ecached exit_).
+   reference, shared with the session's copy) as it is after compilation --
+   frozen by addInvocation when [freezes]. *)
+Definition transported_env_gen (freezes : bool) (entry exit_ : cenv) : cenv :=
+  mkEnv (if freezes then false else ewritable entry) (ecached exit_).
+Definition transported_env := transported_env_gen transport_freezes_env.
 
 (* ---- pipeline(), compile.go:29-48 ---- *)
 Fixpoint pipeline (fuel : nat) (g : dag) (i : nat) : option (list nat) :=
